@@ -70,6 +70,24 @@ def script_rtcp(rng, kinds, n):
     return {"members": members, "steps": steps, "watch": 120000, "settle": 5, "nowire": True}
 
 
+def script_standing_backlog(rng, kinds, n, rate):
+    """A pacer that is kept busy: the application writes in a closed loop, at most 32 packets ahead of what has left the
+    pacer, and the pacing rate is the bottleneck - the pacer's queue is never empty and never long.  What the pacer keeps
+    must be bounded by the backlog, not by the number of packets it has sent."""
+    members = [{"k": k, "o": {"ivl": 1, "size": 512, "k": 5, "n": 2, "rate": rate}} for k in kinds]
+    steps = [{"a": "heap", "ms": 20, "kind": "base"}, {"a": "bindw"}, {"a": "bindr"},
+             {"a": "bindl", "s": 1, "nack": True, "twcc": 0, "rtx": False, "fec": False},
+             {"a": "wait", "ms": 0, "kind": "standing-backlog"}]
+    # the heap is sampled WHILE the backlog stands (a pacer that has drained its queue once may have let go of everything):
+    # n packets of 1012 bytes at `rate` take n * 8096 / rate seconds; five samples spread over the first 85 % of that
+    ms = int(n * 8096 * 1000 / rate * 0.85 / 5)
+    steps.append({"a": "par", "par": [{"a": "wrtp", "s": 1, "w": 0, "id": 1, "len": 1000, "shape": 0, "fail": False,
+                                       "rep": n, "inc": 1, "win": 32},
+                                      {"a": "heap", "ms": ms, "kind": "phase", "rep": 5}]})
+    steps += [{"a": "unbindl", "s": 1}, {"a": "close"}, {"a": "heap", "ms": 50, "kind": "final", "id": n}]
+    return {"members": members, "steps": steps, "watch": 120000, "settle": 5, "nowire": True}
+
+
 def script(rng, kinds, workload, feedback, n, timed, failing=False):
     members = [{"k": k, "o": {"ivl": 1, "size": 512, "k": 5, "n": 2, "rate": 80_000_000}} for k in kinds]
     twcc = 0
@@ -189,6 +207,8 @@ def run(ctx):
         scripts.append(script_rtcp(rng, [k], 20000 if ctx.quick else 200000))
     for k in ("pacing", "ccleaky", "nackresp", "flexfec"):      # steady traffic next to a stream whose transport keeps failing
         scripts.append(script(rng, [k], "inorder", True, 2000 if ctx.quick else n, k in TIMED, failing=True))
+    for k in ("pacing", "ccleaky"):                             # a pacer working against a small standing backlog
+        scripts.append(script_standing_backlog(rng, [k], 6000 if ctx.quick else 24000, 20_000_000))
     for k in ("rrecv", "rsend", "nackgen", "nackresp", "twccsend", "pli", "flexfec", "pdrecv", "twcchdr", "rtpfb"):
         scripts.append(script_many_streams(rng, [k], 3000 if ctx.quick else 8000))      # (stats, rfc8888, cc, jitter: known findings)
     for k in KINDS:                                             # traffic that keeps arriving after Close
